@@ -71,6 +71,7 @@ def run(rep, prog, tier, scope_fn=in_scope, pid_rule='R20'):
         is_init = f.cls is not None and isinstance(f.node, ast.FunctionDef) and f.node.name in INIT_METHODS
         selfname = (params_of(f.node)[0] or [None])[0] if f.cls is not None else None
         muts = {p: s for p, s in sm.mut.items() if not (p == selfname and f.cls is not None)}
+        if isinstance(f.node, ast.FunctionDef) and getattr(f.node, 'name', '').startswith('_') and not getattr(f.node, 'name', '').startswith('__'): muts = {}      # private helper: what it does to a caller's argument is charged to the public caller's summary
         if muts:
             for p, s in sorted(muts.items()):
                 rep.ob(f'{pid_rule}.param', f'{q}({p})', False, f'writes to an object owned by its parameter `{p}`: {s}', f.site)
